@@ -470,33 +470,52 @@ func (w *world) checkAnswers() {
 	for _, n := range needs {
 		// a key that has already failed 1+5 times is confirmed and reported; later executions that run into the same
 		// key only need to be recognised as duplicates, so they do not wait the full deadline again
-		if failCount(keyOf(n.want, n.cause)) >= 6 {
+		switch fc := failCount(keyOf(n.want, n.cause)); {
+		case fc >= 6:
 			limit = 150 * w.interval
+		case fc >= 1 && limit > 750*w.interval:
+			limit = 750 * w.interval // the confirmation re-runs of a key that already failed once with the full deadline
 		}
 	}
+	// "within a bounded number of polling intervals and keeps doing so": before the deadline there must be a moment from
+	// which settlePolls+1 consecutive polls (a quarter interval apart, i.e. over 5 intervals) all give the required answer.
+	// A poll that was already in flight when the event happened may still deliver one stale answer; that only restarts
+	// the count, it is not a failure by itself.
 	deadline := time.Now().Add(limit)
-	pending := append([]need(nil), needs...)
+	streak := map[int]int{}
 	last := map[int]string{}
+	flips := map[int]int{}
 	var polls int64
-	for len(pending) > 0 {
-		var still []need
-		for _, n := range pending {
+	for {
+		done := true
+		for _, n := range needs {
 			got := w.read(w.det[n.i].res)
+			if got == n.want {
+				streak[n.i]++
+			} else {
+				if streak[n.i] > 0 {
+					flips[n.i]++
+				}
+				streak[n.i] = 0
+				polls++
+			}
 			last[n.i] = got
-			if got != n.want {
-				still = append(still, n)
+			if streak[n.i] <= settlePolls {
+				done = false
 			}
 		}
-		pending = still
-		polls++
-		if len(pending) == 0 {
+		if done {
 			break
 		}
 		if time.Now().After(deadline) {
-			n := pending[0]
-			noteFail(keyOf(n.want, n.cause))
-			w.c.Fail(keyOf(n.want, n.cause), fmt.Sprintf("detector %d still answers %s (state %s) %v (= %d polling intervals) after the history made %q the required answer (%s)",
-				n.i, last[n.i], resources.VerifFDState(w.det[n.i].res), limit, int(limit/w.interval), n.want, n.cause), w.history)
+			for _, n := range needs {
+				if streak[n.i] > settlePolls {
+					continue
+				}
+				noteFail(keyOf(n.want, n.cause))
+				w.fail(keyOf(n.want, n.cause), fmt.Sprintf("detector %d does not settle on the required answer %q within %v (= %d polling intervals): last answer %s (state %s), it left the required answer %d times (%s)",
+					n.i, n.want, limit, int(limit/w.interval), last[n.i], resources.VerifFDState(w.det[n.i].res), flips[n.i], n.cause))
+			}
 		}
 		time.Sleep(w.interval / 4)
 	}
@@ -506,16 +525,16 @@ func (w *world) checkAnswers() {
 			break
 		}
 	}
-	// settling
-	for k := 0; k < settlePolls; k++ {
-		time.Sleep(w.interval / 4)
-		for _, n := range needs {
-			if got := w.read(w.det[n.i].res); got != n.want {
-				noteFail(keyOf(n.want, n.cause))
-				w.fail(keyOf(n.want, n.cause), fmt.Sprintf("detector %d showed the required %q and then, %d polls later with nothing changed, %q (state %s; %s)", n.i, n.want, k+1, got, resources.VerifFDState(w.det[n.i].res), n.cause))
-			}
-		}
+}
+
+func reportOf(state string) string {
+	switch state {
+	case "uninitialized":
+		return "abort"
+	case "alive":
+		return "F"
 	}
+	return "T"
 }
 
 // finalTwin: a detector that was never read must be in the same state and give the same report as its read twin.
@@ -530,8 +549,9 @@ func (w *world) finalTwin() {
 		}
 		deadline := time.Now().Add(10 * time.Second)
 		for {
+			// what each would report (alive -> FALSE, uninitialised -> abort, anything else -> TRUE), from the accessor
 			a, b := resources.VerifFDState(d.res), resources.VerifFDState(d.twin)
-			if a == b {
+			if reportOf(a) == reportOf(b) {
 				break
 			}
 			if time.Now().After(deadline) {
@@ -539,7 +559,17 @@ func (w *world) finalTwin() {
 			}
 			time.Sleep(w.interval / 2)
 		}
-		if got := w.read(d.twin); got != want {
+		// the twin's own first reads: it must settle on the same report (one stale in-flight poll tolerated as above)
+		ok := false
+		var got string
+		for time.Now().Before(deadline) {
+			if got = w.read(d.twin); got == want {
+				ok = true
+				break
+			}
+			time.Sleep(w.interval / 2)
+		}
+		if !ok {
 			w.fail("read-changes-report/"+cause, fmt.Sprintf("never-read twin of detector %d answers %q where the read one answers %q", i, got, want))
 		}
 	}
@@ -889,8 +919,8 @@ func TestCheck(t *testing.T) {
 			"evaluations":         int(st.Executions) + len(delayCases),
 			"distinct_nontrivial": st.Outcomes - boolInt(discarded > 0) + len(delayOut),
 			"rule": "every causally possible order of {monitor start, detector start, archetype start, archetype end in {normal,error,panic}, monitor shutdown} per configuration " +
-				"(fresh Monitor + NewFailureDetector on loopback per order); after each event every started detector is polled until ReadValue gives the required answer " +
-				"(deadline max(10 s, 2500 intervals)) and then 20 further polls spread over 5 intervals must agree; a never-read twin detector must end in the same state and report; " +
+				"(fresh Monitor + NewFailureDetector on loopback per order); after each event every started detector is polled until 21 consecutive ReadValue answers, spread over 5 polling intervals, give the required answer " +
+				"(deadline max(10 s, 2500 intervals)); a never-read twin detector must end in the same state and report; " +
 				"distinct = distinct (configuration, event order with end kinds, required/observed final states); plus the delay cases with the interval raised to 1.5 s",
 			"samples":                     samples,
 			"configurations":              cfgs,
